@@ -20,6 +20,7 @@ import (
 	"bytes"
 	"errors"
 	"io"
+	"mime"
 
 	"github.com/drone/envsubst/v2"
 	"github.com/knadh/koanf/maps"
@@ -33,6 +34,12 @@ import (
 var ErrEmptyRuleSet = errors.New("empty rule set")
 
 func ParseRules(contentType string, reader io.Reader, envUsageEnabled bool) (*RuleSet, error) {
+	// the media type is case-insensitive and may be followed by parameters,
+	// like in "application/yaml; charset=utf-8" (RFC 7231, section 3.1.1.1)
+	if mediaType, _, err := mime.ParseMediaType(contentType); err == nil {
+		contentType = mediaType
+	}
+
 	switch contentType {
 	case "application/json":
 		fallthrough
